@@ -579,8 +579,10 @@ mod fp61bit {
             let val = (val & PRIME) + (val >> Self::BITS);
             // another round if val ended up being greater than PRIME
             let val = (val & PRIME) + (val >> Self::BITS);
-            if val == PRIME {
-                Self::ZERO
+            // after two rounds `val` is at most PRIME + 2^7, so one conditional
+            // subtraction makes it canonical.
+            if val >= PRIME {
+                Self((val - PRIME) as <Self as SharedValue>::Storage)
             } else {
                 Self(val as <Self as SharedValue>::Storage)
             }
